@@ -53,6 +53,8 @@ EXTRA = 'delta'       # reaches a body only through **kw
 PLAIN = (None, 0, '', False, [])   # caller values that are falsy / look like "absent"
 COMPONENTS = ['s', 't', 'u', 's', 't', 'u', 'st']   # 'st': string-prefix look-alike of 's'
 
+KINDS = ['str', 'str', 'str', 'list', 'list', 'none']   # kinds of bound values
+
 
 def _sig(kind, reg, pos, dflt=(), kwonly=(), varargs=False, varkw=False):
   return dict(kind=kind, reg=reg, pos=list(pos), dflt=list(dflt),
@@ -167,6 +169,8 @@ def _active(entries):
 
 def _bval(scope, param, kind):
   label = 'B:%s:%s' % (scope, param)
+  if kind == 'none':   # `f.x = None` is a binding like any other
+    return None
   return [label, {'k': label}] if kind == 'list' else label
 
 
@@ -274,7 +278,7 @@ def _gen(rng, shape=None):
   bindings = []
   for s in scopes:
     for p in rng.sample(_bindable(sig), rng.choice([1, 2])):
-      bindings.append([s, p, rng.choice(['str', 'str', 'list'])])
+      bindings.append([s, p, rng.choice(KINDS)])
   splits = _splits(sig)
   calls = [dict(rng.choice(splits)), dict(rng.choice(splits + [{'npos': 0, 'kw': []}] * 8))]
   if rng.random() < 0.25:
